@@ -2,6 +2,7 @@
    conventions as in Proofs/Flow_rpc_pdu.v and Flow_rpc_bind.v (fuel of the floor loop). Listed under C12 only. *)
 From V Require Import Prelude.Base Prelude.PyInt Prelude.PySlice Prelude.PyStr Prelude.PyAst Prelude.PyWorld gen.F_rpc.
 From V Require Import Model.Pdu Model.Request Model.RpcLoop Model.Bind Model.Verification Model.Epm Flow.World_rpc Proofs.Flow_rpc_lib.
+From V Require Import Proofs.RpcTotalPdu.
 Local Open Scope string_scope.
 Local Open Scope list_scope.
 Local Open Scope Z_scope.
@@ -43,7 +44,6 @@ Proof.
     | rewrite HL by (norm_in Hne; congruence); tie ].
 Qed.
 
-Definition handle_ok (h : option (Z * bytes)) : bool := match h with Some (a, _) => in_range 4 a | None => true end.
 
 Lemma flow_eptmap_pack mf fuel m :
   run (W mf) fuel k_flow_eptmap_pack [VO (OEptMap m)] =
@@ -56,3 +56,7 @@ Proof.
   destruct eh as [[a u]|]; destruct ob as [u'|].
   all: tie; comp_step OFloor floor_pack; tie.
 Qed.
+
+Lemma flow_eptmap_unpack_total mf mfuel fuel data : len data < Z.of_nat mfuel ->
+  run (W mf) fuel k_flow_eptmap_unpack [VO (OCls CEptMap); VB data] = lift_fst OEptMap (ept_map_unpack mfuel data).
+Proof. intros H. apply flow_eptmap_unpack. exact (proj1 (ept_map_unpack_total data mfuel H)). Qed.
